@@ -18,7 +18,16 @@ func (m *Message) SkipClassAdRaw(ctx context.Context) error {
 	if err != nil {
 		return fmt.Errorf("failed to read expression count: %w", err)
 	}
+	if numExprs < 0 {
+		return fmt.Errorf("invalid expression count %d", numExprs)
+	}
 	for i := 0; i < numExprs; i++ {
+		// On a plaintext stream a string read at end-of-message yields "" with no
+		// error, so a peer-supplied count larger than the message would otherwise
+		// spin here for up to 2^63 iterations. Stop when the message is exhausted.
+		if m.exhausted() {
+			return fmt.Errorf("message ended after %d of %d expressions", i, numExprs)
+		}
 		if err := m.SkipString(ctx); err != nil {
 			return fmt.Errorf("failed to skip expression %d (expected %d): %w", i, numExprs, err)
 		}
@@ -41,6 +50,9 @@ func (m *Message) SkipString(ctx context.Context) error {
 		if err != nil {
 			return err
 		}
+		if length < 0 {
+			return fmt.Errorf("invalid string length %d", length)
+		}
 		return m.discard(ctx, int(length))
 	}
 	for {
@@ -58,6 +70,12 @@ func (m *Message) SkipString(ctx context.Context) error {
 			return nil // null terminator
 		}
 	}
+}
+
+// exhausted reports whether the end-of-message frame has been seen and every
+// buffered byte consumed, i.e. nothing more of this message can be read.
+func (m *Message) exhausted() bool {
+	return m.isEOM && m.buffer.Len() == 0
 }
 
 // discard consumes and drops n bytes from the frame buffer, pulling in more frame
